@@ -23,6 +23,8 @@ def replay_roundtrip(lengths, blocked, api, records=None):
         if f.tell() != 0:
             return True, 'file left at %d' % f.tell(), 'C03/rewind'
         data = f.getvalue()
+    elif api == 'func-iter':
+        data = mciipm.vbs_list_to_bytes(iter(list(recs)) if len(recs) == 1 else (r for r in recs), blocked=blocked)
     else:
         data = mciipm.vbs_list_to_bytes(recs, blocked=blocked)
         if mciipm.vbs_list_to_bytes(recs, blocked=blocked) != data:
